@@ -342,27 +342,76 @@ impl<T: ?Sized> Clone for Reference<T> {
 ///same macro exported in two different places. These paths point to the same code in RRTK. Rust's
 ///scoping rules for macros are a bit odd, but you should be able to use `rrtk::to_dyn` and
 ///`rrtk::reference::to_dyn` interchangably.
+#[cfg(feature = "std")]
 #[macro_export]
 macro_rules! to_dyn {
     ($trait_:path, $was:expr) => {{
-        #[cfg(feature = "alloc")]
-        extern crate alloc;
         #[allow(unreachable_patterns)]
         match $was.into_inner() {
-            reference::ReferenceUnsafe::Ptr(ptr) => unsafe {
-                Reference::from_ptr(ptr as *mut dyn $trait_)
+            $crate::reference::ReferenceUnsafe::Ptr(ptr) => unsafe {
+                $crate::Reference::from_ptr(ptr as *mut dyn $trait_)
             },
-            #[cfg(feature = "alloc")]
-            reference::ReferenceUnsafe::RcRefCell(rc_ref_cell) => Reference::from_rc_ref_cell(
-                rc_ref_cell as alloc::rc::Rc<core::cell::RefCell<dyn $trait_>>,
-            ),
-            #[cfg(feature = "std")]
-            reference::ReferenceUnsafe::PtrRwLock(ptr_rw_lock) => unsafe {
-                Reference::from_ptr_rw_lock(ptr_rw_lock as *const std::sync::RwLock<dyn $trait_>)
+            $crate::reference::ReferenceUnsafe::RcRefCell(rc_ref_cell) => {
+                $crate::Reference::from_rc_ref_cell(
+                    rc_ref_cell
+                        as $crate::reference::__private::Rc<
+                            $crate::reference::__private::RefCell<dyn $trait_>,
+                        >,
+                )
+            }
+            $crate::reference::ReferenceUnsafe::PtrRwLock(ptr_rw_lock) => unsafe {
+                $crate::Reference::from_ptr_rw_lock(
+                    ptr_rw_lock as *const $crate::reference::__private::RwLock<dyn $trait_>,
+                )
             },
             _ => unimplemented!(),
         }
     }};
+}
+///See the `std` version of this macro for documentation.
+#[cfg(all(feature = "alloc", not(feature = "std")))]
+#[macro_export]
+macro_rules! to_dyn {
+    ($trait_:path, $was:expr) => {{
+        #[allow(unreachable_patterns)]
+        match $was.into_inner() {
+            $crate::reference::ReferenceUnsafe::Ptr(ptr) => unsafe {
+                $crate::Reference::from_ptr(ptr as *mut dyn $trait_)
+            },
+            $crate::reference::ReferenceUnsafe::RcRefCell(rc_ref_cell) => {
+                $crate::Reference::from_rc_ref_cell(
+                    rc_ref_cell
+                        as $crate::reference::__private::Rc<
+                            $crate::reference::__private::RefCell<dyn $trait_>,
+                        >,
+                )
+            }
+            _ => unimplemented!(),
+        }
+    }};
+}
+///See the `std` version of this macro for documentation.
+#[cfg(not(feature = "alloc"))]
+#[macro_export]
+macro_rules! to_dyn {
+    ($trait_:path, $was:expr) => {{
+        #[allow(unreachable_patterns)]
+        match $was.into_inner() {
+            $crate::reference::ReferenceUnsafe::Ptr(ptr) => unsafe {
+                $crate::Reference::from_ptr(ptr as *mut dyn $trait_)
+            },
+            _ => unimplemented!(),
+        }
+    }};
+}
+#[doc(hidden)]
+pub mod __private {
+    #[cfg(feature = "alloc")]
+    pub use alloc::rc::Rc;
+    #[cfg(feature = "alloc")]
+    pub use core::cell::RefCell;
+    #[cfg(feature = "std")]
+    pub use std::sync::RwLock;
 }
 pub use to_dyn;
 ///Create a new `Rc<RefCell>` of something and return a [`Reference`] to it. Because of how [`Rc`]
